@@ -807,6 +807,7 @@ func TestRuntime(t *testing.T) {
 				}
 				c.Bad8 = gen.HasInvalidUTF8(md, c.M, mo.Resolver)
 			}
+			mo.ValidUTF8 = !c.Bad8 // the history must not bring invalid UTF-8 into a case that is judged as valid content
 			eo := model.AllPerturbations
 			eo.Labels = &c.Labels
 			c.Wire = model.Encode(md, c.M, gen.RapidChooser{T: t}, eo, mo.Resolver)
